@@ -347,3 +347,203 @@ theorem ID.ext_nibble (i j : ID) (h : ∀ k, k < 32 → nibble i k = nibble j k)
   rw [e1, e2]
 
 end U.UU
+namespace U.UU
+open U
+
+/-! ## the parser -/
+
+/-- what the parser does once the offset is known: hyphen test, then the digit loop -/
+def core (s : Bytes) (offset : Nat) (u : Bool) : Outcome ID :=
+  match s[offset + 8]?, s[offset + 13]?, s[offset + 18]?, s[offset + 23]? with
+  | some h1, some h2, some h3, some h4 =>
+    if h1 ≠ 45 ∨ h2 ≠ 45 ∨ h3 ≠ 45 ∨ h4 ≠ 45 then .err .invalid
+    else
+      match digits s offset u Gen.uu_starts 0 (0#64, 0#64) with
+      | .ok n => .ok ⟨n.2, n.1⟩
+      | .err e => .err e
+      | .panic => .panic
+  | _, _, _, _ => .panic
+
+/-- `parse` as a decision list -/
+theorem parse_eq (maxLen : Nat) (dURN dUpper : Bool) (s : Bytes) :
+    parse maxLen dURN dUpper s =
+      if maxLen ≠ 0 ∧ s.length > maxLen then .err .tooLong
+      else if s.length = 36 then core s 0 (!dUpper)
+      else if s.length = 45 then
+        if dURN then .err .urnDisabled
+        else match hasURNPrefix s with
+          | .ok true => core s 9 (!dUpper)
+          | .ok false => .err .invalid
+          | .err e => .err e
+          | .panic => .panic
+      else .err .invalid := by
+  unfold parse
+  simp only [Gen.uu_IDLength, Gen.uu_URNPrefix, List.length_cons, List.length_nil, Nat.reduceAdd]
+  by_cases h1 : maxLen ≠ 0 ∧ s.length > maxLen
+  · rw [if_pos h1, if_pos h1]
+  · rw [if_neg h1, if_neg h1]
+    by_cases h36 : s.length = 36
+    · simp only [h36, ↓reduceIte]; rfl
+    · simp only [h36, ↓reduceIte]
+      by_cases h45 : s.length = 45
+      · simp only [h45, ↓reduceIte]
+        cases dURN with
+        | true => simp
+        | false =>
+          simp only [Bool.false_eq_true, if_false]
+          cases hasURNPrefix s with
+          | ok b => cases b <;> rfl
+          | err e => rfl
+          | panic => rfl
+      · simp only [h45, ↓reduceIte]
+
+theorem parseDigit_lt (c : Nat) (u : Bool) (v : Nat) (h : parseDigit c u = some v) : v < 16 := by
+  unfold parseDigit at h
+  repeat' split at h
+  all_goals first
+    | (simp only [Option.some.injEq] at h; omega)
+    | simp at h
+
+theorem digitVal_getD_lt (s : Bytes) (off : Nat) (u : Bool) (p : Nat) : (digitVal s off u p).getD 0 < 16 := by
+  cases h : digitVal s off u p with
+  | none => simp
+  | some v =>
+    simp only [Option.getD_some]
+    unfold digitVal at h
+    split at h
+    · simp at h
+    · exact parseDigit_lt _ _ _ h
+
+theorem digitVal_eq_some (s : Bytes) (off : Nat) (u : Bool) (p v : Nat) :
+    digitVal s off u p = some v ↔ ∃ c, s[off + p]? = some c ∧ parseDigit c u = some v := by
+  unfold digitVal
+  cases s[off + p]? with
+  | none => simp
+  | some c => simp
+
+theorem pos_mem_starts (k : Nat) (hk : k < 32) : ∃ p, p ∈ Gen.uu_starts ∧ (pos k = p ∨ pos k = p + 1) := by
+  have hc : k = 0 ∨ k = 1 ∨ k = 2 ∨ k = 3 ∨ k = 4 ∨ k = 5 ∨ k = 6 ∨ k = 7 ∨ k = 8 ∨ k = 9 ∨ k = 10 ∨ k = 11 ∨ k = 12 ∨ k = 13 ∨ k = 14 ∨ k = 15 ∨ k = 16 ∨ k = 17 ∨ k = 18 ∨ k = 19 ∨ k = 20 ∨ k = 21 ∨ k = 22 ∨ k = 23 ∨ k = 24 ∨ k = 25 ∨ k = 26 ∨ k = 27 ∨ k = 28 ∨ k = 29 ∨ k = 30 ∨ k = 31 := by omega
+  rcases hc with rfl | rfl | rfl | rfl | rfl | rfl | rfl | rfl | rfl | rfl | rfl | rfl | rfl | rfl | rfl | rfl | rfl | rfl | rfl | rfl | rfl | rfl | rfl | rfl | rfl | rfl | rfl | rfl | rfl | rfl | rfl | rfl
+  · exact ⟨0, by decide, Or.inl (by decide)⟩
+  · exact ⟨0, by decide, Or.inr (by decide)⟩
+  · exact ⟨2, by decide, Or.inl (by decide)⟩
+  · exact ⟨2, by decide, Or.inr (by decide)⟩
+  · exact ⟨4, by decide, Or.inl (by decide)⟩
+  · exact ⟨4, by decide, Or.inr (by decide)⟩
+  · exact ⟨6, by decide, Or.inl (by decide)⟩
+  · exact ⟨6, by decide, Or.inr (by decide)⟩
+  · exact ⟨9, by decide, Or.inl (by decide)⟩
+  · exact ⟨9, by decide, Or.inr (by decide)⟩
+  · exact ⟨11, by decide, Or.inl (by decide)⟩
+  · exact ⟨11, by decide, Or.inr (by decide)⟩
+  · exact ⟨14, by decide, Or.inl (by decide)⟩
+  · exact ⟨14, by decide, Or.inr (by decide)⟩
+  · exact ⟨16, by decide, Or.inl (by decide)⟩
+  · exact ⟨16, by decide, Or.inr (by decide)⟩
+  · exact ⟨19, by decide, Or.inl (by decide)⟩
+  · exact ⟨19, by decide, Or.inr (by decide)⟩
+  · exact ⟨21, by decide, Or.inl (by decide)⟩
+  · exact ⟨21, by decide, Or.inr (by decide)⟩
+  · exact ⟨24, by decide, Or.inl (by decide)⟩
+  · exact ⟨24, by decide, Or.inr (by decide)⟩
+  · exact ⟨26, by decide, Or.inl (by decide)⟩
+  · exact ⟨26, by decide, Or.inr (by decide)⟩
+  · exact ⟨28, by decide, Or.inl (by decide)⟩
+  · exact ⟨28, by decide, Or.inr (by decide)⟩
+  · exact ⟨30, by decide, Or.inl (by decide)⟩
+  · exact ⟨30, by decide, Or.inr (by decide)⟩
+  · exact ⟨32, by decide, Or.inl (by decide)⟩
+  · exact ⟨32, by decide, Or.inr (by decide)⟩
+  · exact ⟨34, by decide, Or.inl (by decide)⟩
+  · exact ⟨34, by decide, Or.inr (by decide)⟩
+theorem starts_are_pos (p : Nat) (hp : p ∈ Gen.uu_starts) : ∃ k, k < 31 ∧ pos k = p ∧ pos (k + 1) = p + 1 := by
+  simp only [Gen.uu_starts, List.mem_cons, List.not_mem_nil, or_false] at hp
+  rcases hp with rfl | rfl | rfl | rfl | rfl | rfl | rfl | rfl | rfl | rfl | rfl | rfl | rfl | rfl | rfl | rfl
+  · exact ⟨0, by decide, by decide, by decide⟩
+  · exact ⟨2, by decide, by decide, by decide⟩
+  · exact ⟨4, by decide, by decide, by decide⟩
+  · exact ⟨6, by decide, by decide, by decide⟩
+  · exact ⟨8, by decide, by decide, by decide⟩
+  · exact ⟨10, by decide, by decide, by decide⟩
+  · exact ⟨12, by decide, by decide, by decide⟩
+  · exact ⟨14, by decide, by decide, by decide⟩
+  · exact ⟨16, by decide, by decide, by decide⟩
+  · exact ⟨18, by decide, by decide, by decide⟩
+  · exact ⟨20, by decide, by decide, by decide⟩
+  · exact ⟨22, by decide, by decide, by decide⟩
+  · exact ⟨24, by decide, by decide, by decide⟩
+  · exact ⟨26, by decide, by decide, by decide⟩
+  · exact ⟨28, by decide, by decide, by decide⟩
+  · exact ⟨30, by decide, by decide, by decide⟩
+
+theorem nibble_pack' (f : Nat → Nat) (hf : ∀ p, f p < 16) (n : BitVec 64 × BitVec 64)
+    (hn : n = placeAll f Gen.uu_starts 0 (0#64, 0#64)) (k : Nat) (hk : k < 32) :
+    nibble ⟨n.2, n.1⟩ k = f (pos k) := by
+  subst hn
+  rw [placeAll_starts]
+  exact nibble_pack f hf k hk
+
+/-- the digit loop succeeds exactly when all 32 digit positions hold digits, and then the ID's
+`k`-th digit is the value of the `k`-th digit read -/
+theorem digits_starts_ok_iff (s : Bytes) (off : Nat) (u : Bool) (i : ID) :
+    (∃ n, digits s off u Gen.uu_starts 0 (0#64, 0#64) = .ok n ∧ i = ⟨n.2, n.1⟩) ↔
+      ∀ k, k < 32 → ∃ c, s[off + pos k]? = some c ∧ parseDigit c u = some (nibble i k) := by
+  constructor
+  · rintro ⟨n, hn, rfl⟩ k hk
+    rw [digits_ok_iff, placeAll_starts] at hn
+    obtain ⟨hsome, rfl⟩ := hn
+    rw [← digitVal_eq_some]
+    simp only
+    rw [nibble_pack (fun p => (digitVal s off u p).getD 0) (fun p => digitVal_getD_lt s off u p) k hk]
+    obtain ⟨p, hp, hpk⟩ := pos_mem_starts k hk
+    have := hsome p hp
+    rcases hpk with e | e <;> rw [e]
+    · cases h : digitVal s off u p with
+      | none => rw [h] at this; simp at this
+      | some v => simp
+    · cases h : digitVal s off u (p + 1) with
+      | none => rw [h] at this; simp at this
+      | some v => simp
+  · intro h
+    have hv : ∀ k, k < 32 → digitVal s off u (pos k) = some (nibble i k) :=
+      fun k hk => (digitVal_eq_some _ _ _ _ _).mpr (h k hk)
+    refine ⟨_, (digits_ok_iff _ _ _ _ _ _ _).mpr ⟨?_, rfl⟩, ?_⟩
+    · intro p hp
+      obtain ⟨k, hk, e1, e2⟩ := starts_are_pos p hp
+      subst e1
+      rw [← e2, hv k (by omega), hv (k + 1) (by omega)]
+      simp
+    · refine ID.ext_nibble _ _ (fun k hk => ?_)
+      have e := nibble_pack' (fun p => (digitVal s off u p).getD 0) (fun p => digitVal_getD_lt s off u p)
+        (placeAll (fun p => (digitVal s off u p).getD 0) Gen.uu_starts 0 (0#64, 0#64)) rfl k hk
+      have e2 : (digitVal s off u (pos k)).getD 0 = nibble i k := by
+        rw [hv k hk, Option.getD_some]
+      exact (e.trans e2).symm
+
+theorem core_ok_iff (s : Bytes) (off : Nat) (u : Bool) (i : ID) :
+    core s off u = .ok i ↔
+      (s[off + 8]? = some 45 ∧ s[off + 13]? = some 45 ∧ s[off + 18]? = some 45 ∧ s[off + 23]? = some 45) ∧
+      ∀ k, k < 32 → ∃ c, s[off + pos k]? = some c ∧ parseDigit c u = some (nibble i k) := by
+  rw [← digits_starts_ok_iff]
+  unfold core
+  split
+  · rename_i h1 h2 h3 h4 e1 e2 e3 e4
+    rw [e1, e2, e3, e4]
+    by_cases hh : h1 ≠ 45 ∨ h2 ≠ 45 ∨ h3 ≠ 45 ∨ h4 ≠ 45
+    · rw [if_pos hh]
+      simp only [Option.some.injEq, false_iff, reduceCtorEq]
+      omega
+    · rw [if_neg hh]
+      have : h1 = 45 ∧ h2 = 45 ∧ h3 = 45 ∧ h4 = 45 := by omega
+      obtain ⟨rfl, rfl, rfl, rfl⟩ := this
+      simp only [true_and]
+      cases hd : digits s off u Gen.uu_starts 0 (0#64, 0#64) with
+      | ok n => simp [eq_comm]
+      | err e => simp
+      | panic => simp
+  · rename_i hx
+    simp only [reduceCtorEq, false_iff]
+    rintro ⟨⟨e1, e2, e3, e4⟩, _⟩
+    exact hx _ _ _ _ e1 e2 e3 e4
+
+end U.UU
